@@ -13,6 +13,33 @@ use crate::helpers::{
 /// compilation problems when copied across.
 const ATTRIBUTES_TO_COPY: &[&str] = &["doc", "cfg", "allow", "deny", "strum_discriminants"];
 
+/// The repr of the discriminant enum. An enum with fields may be `#[repr(C, u8)]`; the integer
+/// is then the type of its tag. A field-less enum cannot carry both hints (rustc: "conflicting
+/// representation hints"), so the discriminant enum keeps the integer and drops the `C`.
+fn tag_repr(repr: TokenStream) -> TokenStream {
+    const INTS: &[&str] = &[
+        "u8", "u16", "u32", "u64", "u128", "usize", "i8", "i16", "i32", "i64", "i128", "isize",
+    ];
+    let is_word = |hint: &[TokenTree], words: &[&str]| match hint {
+        [TokenTree::Ident(ident)] => words.contains(&ident.to_string().as_str()),
+        _ => false,
+    };
+
+    let tokens: Vec<TokenTree> = repr.clone().into_iter().collect();
+    let hints: Vec<&[TokenTree]> = tokens
+        .split(|tree| matches!(tree, TokenTree::Punct(punct) if punct.as_char() == ','))
+        .filter(|hint| !hint.is_empty())
+        .collect();
+    if !hints.iter().any(|hint| is_word(hint, INTS)) {
+        return repr;
+    }
+    let kept = hints
+        .into_iter()
+        .filter(|hint| !is_word(hint, &["C"]))
+        .map(|hint| hint.iter().cloned().collect::<TokenStream>());
+    quote!(#(#kept),*)
+}
+
 pub fn enum_discriminants_inner(ast: &DeriveInput) -> syn::Result<TokenStream> {
     let name = &ast.ident;
     let vis = &ast.vis;
@@ -51,7 +78,10 @@ pub fn enum_discriminants_inner(ast: &DeriveInput) -> syn::Result<TokenStream> {
     // Pass through all other attributes
     let pass_though_attributes = type_properties.discriminant_others;
 
-    let repr = type_properties.enum_repr.map(|repr| quote!(#[repr(#repr)]));
+    let repr = type_properties.enum_repr.map(|repr| {
+        let repr = tag_repr(repr);
+        quote!(#[repr(#repr)])
+    });
 
     // Add the variants without fields, but exclude the `strum` meta item
     let mut discriminants = Vec::new();
